@@ -170,7 +170,12 @@ def run_suite(suite, tier, seed, key):
     if cand:
         with open(os.path.join(wd, "cand.ndjson"), "w") as fo:
             for j in cand:
-                fo.write(json.dumps(dict(c=j["c"], form=j["form"], steps=j["steps"])) + "\n")
+                xf = 0
+                exp = j.get("expected") or []
+                for i, st in enumerate(j["steps"]):
+                    if st["o"]["fault"] and (i >= len(exp) or not exp[i]["fault"]):
+                        xf = i + 1; break
+                fo.write(json.dumps(dict(c=j["c"], form=j["form"], steps=j["steps"], xf=xf)) + "\n")
         strict = trace_mon(wd, os.path.join(wd, "cand.ndjson"), [], "mon_strict.out")
         kfs = known_findings()
         lenient = {}
